@@ -575,4 +575,463 @@ theorem sinv_clear (num : Nat) : SInv (V := V) num [] 0 (clearProps PVal.zero) :
     left
     rcases hp with e | e | e <;> subst e <;> exact ⟨0, PVal.zero, rfl⟩
 
+/-! ### dictionaries -/
+
+theorem dictGet?_map_ne {β : Type} (d : List (String × β)) (k : String) (v : β) (n : String)
+    (hn : n ≠ k) :
+    dictGet? (d.map (fun e => if e.1 == k then (k, v) else e)) n = dictGet? d n := by
+  induction d with
+  | nil => rfl
+  | cons e es ih =>
+    simp only [dictGet?, List.map_cons, List.find?_cons] at ih ⊢
+    by_cases hek : e.1 = k
+    · have h1 : (k == n) = false := by simpa using fun h => hn h.symm
+      have h2 : (e.1 == n) = false := by rw [hek]; exact h1
+      simp only [hek, beq_self_eq_true, if_true, h1, h2]
+      exact ih
+    · have hek' : (e.1 == k) = false := by simpa using hek
+      simp only [hek', Bool.false_eq_true, if_false]
+      cases (e.1 == n)
+      · exact ih
+      · rfl
+
+theorem dictGet?_map_eq {β : Type} (d : List (String × β)) (k : String) (v : β)
+    (hk : ∃ e ∈ d, e.1 = k) :
+    dictGet? (d.map (fun e => if e.1 == k then (k, v) else e)) k = some v := by
+  induction d with
+  | nil => obtain ⟨e, he, _⟩ := hk; cases he
+  | cons e es ih =>
+    simp only [dictGet?, List.map_cons, List.find?_cons] at ih ⊢
+    by_cases hek : e.1 = k
+    · simp [hek]
+    · have hek' : (e.1 == k) = false := by simpa using hek
+      simp only [hek', Bool.false_eq_true, if_false]
+      apply ih
+      obtain ⟨x, hx, hxk⟩ := hk
+      rcases List.mem_cons.1 hx with e1 | e1
+      · subst e1; exact absurd hxk hek
+      · exact ⟨x, e1, hxk⟩
+
+theorem dictGet?_none_of_not_mem {β : Type} (d : List (String × β)) (k : String)
+    (hk : ¬ ∃ e ∈ d, e.1 = k) : dictGet? d k = none := by
+  simp only [dictGet?, Option.map_eq_none_iff, List.find?_eq_none]
+  intro e he
+  simp only [beq_iff_eq]
+  exact fun h => hk ⟨e, he, h⟩
+
+theorem dictGet?_dictSet {β : Type} (d : List (String × β)) (k : String) (v : β) (n : String) :
+    dictGet? (dictSet d k v) n = if n = k then some v else dictGet? d n := by
+  unfold dictSet
+  by_cases hany : d.any (fun e => e.1 == k) = true
+  · rw [if_pos hany]
+    have hk : ∃ e ∈ d, e.1 = k := by simpa using hany
+    by_cases hn : n = k
+    · subst hn; rw [if_pos rfl]; exact dictGet?_map_eq d n v hk
+    · rw [if_neg hn]; exact dictGet?_map_ne d k v n hn
+  · rw [if_neg hany]
+    have hk : ¬ ∃ e ∈ d, e.1 = k := by simpa using hany
+    simp only [dictGet?, List.find?_append]
+    by_cases hn : n = k
+    · subst hn
+      have := dictGet?_none_of_not_mem d n hk
+      simp only [dictGet?, Option.map_eq_none_iff] at this
+      simp [this]
+    · have h1 : (k == n) = false := by simpa using fun h => hn h.symm
+      simp [hn, h1]
+
+theorem keys_dictSet {β : Type} (d : List (String × β)) (k : String) (v : β) :
+    (dictSet d k v).map (·.1) =
+      if (∃ e ∈ d, e.1 = k) then d.map (·.1) else d.map (·.1) ++ [k] := by
+  unfold dictSet
+  by_cases hany : d.any (fun e => e.1 == k) = true
+  · have hk : ∃ e ∈ d, e.1 = k := by simpa using hany
+    rw [if_pos hany, if_pos hk, List.map_map]
+    apply List.map_congr_left
+    intro e _
+    by_cases hek : e.1 = k <;> simp [hek]
+  · have hk : ¬ ∃ e ∈ d, e.1 = k := by simpa using hany
+    rw [if_neg hany, if_neg hk]; simp
+
+theorem mem_keys_iff_dictGet? {β : Type} (d : List (String × β)) (k : String) :
+    (∃ e ∈ d, e.1 = k) ↔ (dictGet? d k).isSome = true := by
+  simp [dictGet?, List.find?_isSome]
+
+/-! ### what the writers store -/
+
+/-- the slice `get_property_arrays` stores for the property called `n` -/
+def sliceOf (pa : PArr V) (num : Nat) (n : String) : Option (List V) :=
+  (findProp pa.props n).map (fun p => p.data.take (num * p.stride))
+
+theorem findProp_isSome_of_mem (ps : List (PropRec V)) (n : String)
+    (h : ∃ p ∈ ps, p.name = n) : ∃ p, findProp ps n = some p := by
+  have : (findProp ps n).isSome = true := by
+    simp only [findProp, List.find?_isSome, beq_iff_eq]
+    exact h
+  exact Option.isSome_iff_exists.1 this
+
+theorem gpa_fold (pa : PArr V) (num : Nat) (names : List String) :
+    (∀ n ∈ names, ∃ p ∈ pa.props, p.name = n) →
+    ∀ (acc : List (String × List V)) (seen : List String),
+    (∀ n, dictGet? acc n = if n ∈ seen then sliceOf pa num n else none) →
+    ∃ arrs, names.foldlM (gpaStep pa num) acc = some arrs ∧
+      ∀ n, dictGet? arrs n = if n ∈ seen ++ names then sliceOf pa num n else none := by
+  induction names with
+  | nil =>
+    intro _ acc seen h
+    exact ⟨acc, rfl, by simpa using h⟩
+  | cons m ms ih =>
+    intro hsub acc seen h
+    obtain ⟨p, hp⟩ := findProp_isSome_of_mem pa.props m (hsub m (by simp))
+    have hstep : gpaStep pa num acc m = some (dictSet acc m (p.data.take (num * p.stride))) := by
+      simp [gpaStep, hp]
+    have hacc : ∀ n, dictGet? (dictSet acc m (p.data.take (num * p.stride))) n =
+        if n ∈ seen ++ [m] then sliceOf pa num n else none := by
+      intro n
+      rw [dictGet?_dictSet]
+      by_cases hn : n = m
+      · subst hn; simp [sliceOf, hp]
+      · rw [if_neg hn, h n]; simp [hn]
+    obtain ⟨arrs, h1, h2⟩ := ih (fun n hn => hsub n (by simp [hn])) _ (seen ++ [m]) hacc
+    refine ⟨arrs, ?_, ?_⟩
+    · simp only [List.foldlM_cons, hstep]; exact h1
+    · intro n; rw [h2 n]; simp [List.append_assoc]
+
+/-- `get_property_arrays` succeeds when the names it is asked for are properties,
+and stores exactly the slices of those -/
+theorem gpa_spec (pa : PArr V) (all real : Bool)
+    (hsub : ∀ n ∈ storedNames pa all, ∃ p ∈ pa.props, p.name = n) :
+    ∃ arrs, getPropertyArrays pa all real = some arrs ∧
+      ∀ n, dictGet? arrs n =
+        if n ∈ storedNames pa all then sliceOf pa (numParticles pa real) n else none := by
+  obtain ⟨arrs, h1, h2⟩ := gpa_fold pa (numParticles pa real) (storedNames pa all) hsub [] []
+    (by intro n; simp [dictGet?])
+  exact ⟨arrs, h1, by simpa using h2⟩
+
+/-! ### well-formed source arrays and the requests the readers derive from a dump -/
+
+/-- a coherent, aligned particle array (what C06 establishes for every reachable array) -/
+structure WF (pa : PArr V) : Prop where
+  nodup : (pa.props.map (·.name)).Nodup
+  hasBase : ∀ n, isBase n → ∃ p ∈ pa.props, p.name = n
+  baseMeta : ∀ p ∈ pa.props, isBase p.name → p.stride = 1 ∧ p.ctype = baseTy p.name
+  stridePos : ∀ p ∈ pa.props, 1 ≤ p.stride
+  coh : ∀ p ∈ pa.props, p.data.length = numParticles pa false * p.stride
+  nreal : pa.nReal ≤ numParticles pa false
+  /-- the first `nReal` particles are the `Local` ones -/
+  aligned : ∀ t ∈ pa.props, t.name = "tag" →
+    (∀ x ∈ t.data.take pa.nReal, x = PVal.zero) ∧ (∀ x ∈ t.data.drop pa.nReal, x ≠ PVal.zero)
+  outSub : ∀ n ∈ pa.outArrs, ∃ p ∈ pa.props, p.name = n
+  constsNodup : (pa.consts.map (·.name)).Nodup
+  constsDisj : ∀ c ∈ pa.consts, ¬ ∃ p ∈ pa.props, p.name = c.name
+  constsTy : ∀ c ∈ pa.consts, constCType c.ctype = some c.ctype
+
+/-- the `add_property` call both readers make for property `p` of a dumped array -/
+def reqOf (arrs : List (String × List V)) (p : PropRec V) : AddReq V :=
+  { name := p.name, ty := p.ctype, dflt := p.default, data := dictGet? arrs p.name,
+    stride := p.stride }
+
+theorem storedNames_sub (pa : PArr V) (hwf : WF pa) (all : Bool) :
+    ∀ n ∈ storedNames pa all, ∃ p ∈ pa.props, p.name = n := by
+  intro n hn
+  unfold storedNames at hn
+  split at hn
+  · obtain ⟨p, hp, e⟩ := List.mem_map.1 hn
+    exact ⟨p, hp, e⟩
+  · exact hwf.outSub n hn
+
+theorem num_le (pa : PArr V) (hwf : WF pa) (real : Bool) :
+    numParticles pa real ≤ numParticles pa false := by
+  cases real
+  · exact Nat.le_refl _
+  · simpa [numParticles] using hwf.nreal
+
+theorem reqOK_of_wf (pa : PArr V) (hwf : WF pa) (all real : Bool)
+    (arrs : List (String × List V))
+    (harrs : ∀ n, dictGet? arrs n =
+        if n ∈ storedNames pa all then sliceOf pa (numParticles pa real) n else none)
+    (p : PropRec V) (hp : p ∈ pa.props) :
+    ReqOK (numParticles pa real) (reqOf arrs p) := by
+  refine ⟨hwf.stridePos p hp, ?_, fun hb => hwf.baseMeta p hp hb⟩
+  intro d hd
+  simp only [reqOf] at hd ⊢
+  rw [harrs p.name] at hd
+  split at hd
+  · simp only [sliceOf, findProp_of_mem pa.props p.name hwf.nodup p hp rfl, Option.map_some,
+      Option.some.injEq] at hd
+    subst hd
+    rw [List.length_take, hwf.coh p hp]
+    exact Nat.min_eq_left (Nat.mul_le_mul_right _ (num_le pa hwf real))
+  · cases hd
+
+/-- The heart of both readers: serving the requests derived from a dump, in any
+order, on a freshly cleared array succeeds and yields, for every source
+property, a record with the same C type, stride and default, and with the stored
+slice as data when the property was written. -/
+theorem rebuild (pa : PArr V) (hwf : WF pa) (all real : Bool)
+    (arrs : List (String × List V))
+    (harrs : ∀ n, dictGet? arrs n =
+        if n ∈ storedNames pa all then sliceOf pa (numParticles pa real) n else none)
+    (rs : List (AddReq V)) (hperm : rs.Perm (pa.props.map (reqOf arrs)))
+    (pa0 : PArr V) (h0 : SInv (numParticles pa real) [] 0 pa0.props) :
+    ∃ pa' nP', addAll pa0 rs = .ok pa' ∧ pa'.name = pa0.name ∧ pa'.consts = pa0.consts ∧
+      pa'.outArrs = pa0.outArrs ∧ SInv (numParticles pa real) rs nP' pa'.props ∧
+      (∀ p ∈ pa.props, ∃ p' ∈ pa'.props, p'.name = p.name ∧ p'.ctype = p.ctype ∧
+        p'.stride = p.stride ∧ p'.default = p.default ∧
+        (p.name ∈ storedNames pa all → p'.data = p.data.take (numParticles pa real * p.stride))) ∧
+      (∀ p' ∈ pa'.props, ∃ p ∈ pa.props, p.name = p'.name) := by
+  have hok : ∀ r ∈ rs, ReqOK (numParticles pa real) r := by
+    intro r hr
+    obtain ⟨p, hp, e⟩ := List.mem_map.1 (hperm.mem_iff.1 hr)
+    rw [← e]; exact reqOK_of_wf pa hwf all real arrs harrs p hp
+  have hnd : ((([] : List (AddReq V)) ++ rs).map (fun r : AddReq V => r.name)).Nodup := by
+    simp only [List.nil_append]
+    have hp2 : (rs.map (fun r : AddReq V => r.name)).Perm
+        ((pa.props.map (reqOf arrs)).map (fun r : AddReq V => r.name)) := hperm.map _
+    rw [hp2.nodup_iff, List.map_map]
+    exact hwf.nodup
+  obtain ⟨pa', nP', h1, hn, hc, ho, hinv⟩ := addAll_ok rs [] 0 pa0 h0 hok hnd
+  simp only [List.nil_append] at hinv
+  refine ⟨pa', nP', h1, hn, hc, ho, hinv, ?_, ?_⟩
+  · intro p hp
+    have hr : reqOf arrs p ∈ rs := hperm.mem_iff.2 (List.mem_map.2 ⟨p, hp, rfl⟩)
+    obtain ⟨p', hp', h1, h2, h3, h4, h5⟩ := hinv.doneMeta _ hr
+    refine ⟨p', hp', h1, h2, h3, h4, ?_⟩
+    intro hst
+    apply h5
+    simp only [reqOf]
+    rw [harrs p.name, if_pos hst]
+    simp [sliceOf, findProp_of_mem pa.props p.name hwf.nodup p hp rfl]
+  · intro p' hp'
+    rcases hinv.names p' hp' with hb | ⟨r, hr, hrn⟩
+    · exact hwf.hasBase _ hb
+    · obtain ⟨p, hp, e⟩ := List.mem_map.1 (hperm.mem_iff.1 hr)
+      exact ⟨p, hp, by rw [← hrn, ← e]; rfl⟩
+
+/-! ### the hdf5 reader -/
+
+theorem insertByName_perm {β : Type} (e : String × β) (l : List (String × β)) :
+    (insertByName e l).Perm (e :: l) := by
+  induction l with
+  | nil => exact List.Perm.refl _
+  | cons x xs ih =>
+    simp only [insertByName]
+    split
+    · exact List.Perm.refl _
+    · exact (List.Perm.cons x ih).trans (List.Perm.swap e x xs)
+
+theorem sortByName_perm {β : Type} (l : List (String × β)) : (sortByName l).Perm l := by
+  induction l with
+  | nil => exact List.Perm.refl _
+  | cons x xs ih =>
+    simp only [sortByName, List.foldr_cons]
+    exact (insertByName_perm x _).trans (List.Perm.cons x ih)
+
+theorem insertConst_perm (c : Const V) (l : List (Const V)) :
+    (insertConst c l).Perm (c :: l) := by
+  induction l with
+  | nil => exact List.Perm.refl _
+  | cons x xs ih =>
+    simp only [insertConst]
+    split
+    · exact List.Perm.refl _
+    · exact (List.Perm.cons x ih).trans (List.Perm.swap c x xs)
+
+theorem sortConsts_perm (l : List (Const V)) : (sortConsts l).Perm l := by
+  induction l with
+  | nil => exact List.Perm.refl _
+  | cons x xs ih =>
+    simp only [sortConsts, List.foldr_cons]
+    exact (insertConst_perm x _).trans (List.Perm.cons x ih)
+
+/-- the request behind one dataset of an hdf5 file -/
+def h5Req (e : String × H5Data V) : AddReq V :=
+  { name := e.2.aName, ty := e.2.aType, dflt := e.2.aDefault,
+    data := if e.2.stored then some e.2.data else none, stride := e.2.aStride }
+
+theorem h5Req_dataset (arrs : List (String × List V)) (p : PropRec V) :
+    h5Req (h5Dataset arrs (propInfo p)) = reqOf arrs p := by
+  simp only [h5Dataset, propInfo]
+  cases h : dictGet? arrs p.name <;> simp [h5Req, reqOf, h]
+
+theorem h5PropStep_fold (l : List (String × H5Data V)) :
+    ∀ (pa0 : PArr V) (out0 : List String),
+    l.foldlM h5PropStep (pa0, out0) =
+      (addAll pa0 (l.map h5Req)).map
+        (fun pa => (pa, out0 ++ (l.filter (fun e => e.2.stored)).map (·.1))) := by
+  induction l with
+  | nil => intro pa0 out0; simp [addAll, Except.map, pure, Except.pure]
+  | cons e es ih =>
+    intro pa0 out0
+    simp only [List.foldlM_cons, List.map_cons, addAll]
+    have hstep : h5PropStep (pa0, out0) e =
+        (addReq pa0 (h5Req e)).map (fun pa => (pa, if e.2.stored then out0 ++ [e.1] else out0)) := by
+      simp only [h5PropStep, addReq, h5Req]
+      cases e.2.stored <;> simp
+    rw [hstep]
+    cases h1 : addReq pa0 (h5Req e) with
+    | error m => simp [Except.map, bind, Except.bind]
+    | ok pa1 =>
+      simp only [Except.map, bind, Except.bind]
+      rw [ih]
+      simp only [addAll, Except.map]
+      cases hs : e.2.stored <;> simp [List.filter_cons, hs, List.append_assoc]
+
+/-- adding well-formed constants to an array without constants -/
+theorem addConstants_ok (cs : List (Const V)) :
+    ∀ (pa : PArr V),
+    ((pa.consts ++ cs).map (·.name)).Nodup →
+    (∀ c ∈ cs, ¬ ∃ p ∈ pa.props, p.name = c.name) →
+    (∀ c ∈ cs, constCType c.ctype = some c.ctype) →
+    cs.foldlM addConstant pa = .ok { pa with consts := pa.consts ++ cs } := by
+  induction cs with
+  | nil => intro pa _ _ _; simp [pure, Except.pure]
+  | cons c cs ih =>
+    intro pa hnd hdis hty
+    have h1 : hasConst pa.consts c.name = false := by
+      simp only [hasConst, List.any_eq_false, beq_iff_eq]
+      intro x hx e
+      rw [List.map_append, List.nodup_append] at hnd
+      exact hnd.2.2 x.name (List.mem_map.2 ⟨x, hx, rfl⟩) c.name (by simp) e
+    have h2 : hasProp pa.props c.name = false := by
+      cases hh : hasProp pa.props c.name
+      · rfl
+      · exact absurd ((hasProp_iff _ _).1 hh) (hdis c (by simp))
+    have hstep : addConstant pa c = .ok { pa with consts := pa.consts ++ [c] } := by
+      simp [addConstant, h1, h2, hty c (by simp)]
+    simp only [List.foldlM_cons, hstep, bind, Except.bind]
+    rw [ih]
+    · simp [List.append_assoc]
+    · simpa [List.append_assoc] using hnd
+    · intro c' hc'; exact hdis c' (by simp [hc'])
+    · intro c' hc'; exact hty c' (by simp [hc'])
+
+/-- the group `HDFOutput._dump` writes for one array -/
+def h5ArrOf (pa : PArr V) (arrs : List (String × List V)) : H5Arr V :=
+  { outAttr := some pa.outArrs, constants := pa.consts,
+    arrays := (pa.props.map propInfo).map (h5Dataset arrs) }
+
+/-- what a reader must deliver for source array `pa` written with options `o` -/
+structure RoundTrip (o : Opts) (pa q : PArr V) : Prop where
+  name : q.name = pa.name
+  outArrs : q.outArrs = pa.outArrs
+  consts : q.consts.Perm pa.consts
+  nodup : (q.props.map (·.name)).Nodup
+  same : ∀ p ∈ pa.props, ∃ p' ∈ q.props, p'.name = p.name ∧ p'.ctype = p.ctype ∧
+    p'.stride = p.stride ∧ p'.default = p.default ∧
+    (p.name ∈ storedNames pa o.detailed →
+      p'.data = p.data.take (numParticles pa o.onlyReal * p.stride))
+  noExtra : ∀ p' ∈ q.props, ∃ p ∈ pa.props, p.name = p'.name
+  /-- every loaded property is as long as the stored particle count demands -/
+  coh : ∃ n, (n = 0 ∨ n = numParticles pa o.onlyReal) ∧ ∀ p' ∈ q.props, p'.data.length = n * p'.stride
+
+theorem mkParticleArray_consts (name : String) (cs : List (Const V))
+    (hnd : (cs.map (·.name)).Nodup) (hbase : ∀ c ∈ cs, ¬ isBase c.name)
+    (hty : ∀ c ∈ cs, constCType c.ctype = some c.ctype) :
+    mkParticleArray name cs [] = .ok { (emptyArr name : PArr V) with consts := cs } := by
+  simp only [mkParticleArray, initializeArr, List.length_nil, beq_self_eq_true, if_true, bind,
+    Except.bind]
+  rw [addConstants_ok]
+  · simp [emptyArr]
+  · simpa [emptyArr] using hnd
+  · intro c hc ⟨p, hp, e⟩
+    apply hbase c hc
+    simp only [emptyArr, clearProps, List.mem_cons, List.not_mem_nil, or_false] at hp
+    rcases hp with h | h | h <;> subst h <;> simp [isBase, ← e]
+  · exact hty
+
+theorem setOutputArrays_ok (pa : PArr V) (names : List String)
+    (h : ∀ n ∈ names, ∃ p ∈ pa.props, p.name = n) :
+    setOutputArrays pa names = .ok { pa with outArrs := names } := by
+  have : names.all (fun n => hasProp pa.props n || hasConst pa.consts n) = true := by
+    simp only [List.all_eq_true, Bool.or_eq_true]
+    intro n hn
+    exact Or.inl ((hasProp_iff _ _).2 (h n hn))
+  simp [setOutputArrays, this]
+
+theorem consts_not_base (pa : PArr V) (hwf : WF pa) : ∀ c ∈ pa.consts, ¬ isBase c.name :=
+  fun c hc hb => hwf.constsDisj c hc (hwf.hasBase _ hb)
+
+/-- hdf5: reading back the group written for a well-formed array -/
+theorem loadH5_spec (pa : PArr V) (hwf : WF pa) (o : Opts) :
+    ∃ arrs q, getPropertyArrays pa o.detailed o.onlyReal = some arrs ∧
+      loadH5Arr pa.name (h5ArrOf pa arrs) = .ok q ∧ RoundTrip o pa q := by
+  obtain ⟨arrs, hg, harrs⟩ := gpa_spec pa o.detailed o.onlyReal (storedNames_sub pa hwf _)
+  refine ⟨arrs, ?_⟩
+  have hsp := sortConsts_perm pa.consts
+  have hmk := mkParticleArray_consts (V := V) pa.name (sortConsts pa.consts)
+    (by rw [(hsp.map _).nodup_iff]; exact hwf.constsNodup)
+    (fun c hc => consts_not_base pa hwf c (hsp.mem_iff.1 hc))
+    (fun c hc => hwf.constsTy c (hsp.mem_iff.1 hc))
+  have hperm : ((sortByName (h5ArrOf pa arrs).arrays).map h5Req).Perm
+      (pa.props.map (reqOf arrs)) := by
+    have h1 := (sortByName_perm (h5ArrOf pa arrs).arrays).map h5Req
+    refine h1.trans ?_
+    simp only [h5ArrOf, List.map_map]
+    rw [List.map_congr_left (g := reqOf arrs)]
+    intro p _
+    exact h5Req_dataset arrs p
+  obtain ⟨pa', nP', h1, hn, hc, ho, hinv, hmeta, hno⟩ :=
+    rebuild pa hwf o.detailed o.onlyReal arrs harrs _ hperm
+      { (emptyArr pa.name : PArr V) with consts := sortConsts pa.consts }
+      (sinv_clear _)
+  have hout : ∀ n ∈ pa.outArrs, ∃ p ∈ pa'.props, p.name = n := by
+    intro n hn
+    obtain ⟨p, hp, e⟩ := hwf.outSub n hn
+    obtain ⟨p', hp', e', _⟩ := hmeta p hp
+    exact ⟨p', hp', e'.trans e⟩
+  refine ⟨{ pa' with outArrs := pa.outArrs }, hg, ?_, ?_⟩
+  · simp only [loadH5Arr]
+    rw [show (h5ArrOf pa arrs).constants = pa.consts from rfl, hmk]
+    simp only [bind, Except.bind]
+    rw [h5PropStep_fold, h1]
+    simp only [Except.map]
+    rw [show (h5ArrOf pa arrs).outAttr = some pa.outArrs from rfl]
+    exact setOutputArrays_ok pa' pa.outArrs hout
+  · exact { name := hn, outArrs := rfl, consts := by simpa [hc] using hsp, nodup := hinv.nodup,
+            same := hmeta, noExtra := hno, coh := ⟨nP', hinv.np, hinv.coh⟩ }
+
+/-! ### the npz reader -/
+
+theorem alignFold_trues (k : Nat) : ∀ (s : AlignSt), s.next = s.idx.length → s.moves = 0 →
+    let s' := (List.replicate k true).foldl alignStep s
+    s'.next = s'.idx.length ∧ s'.moves = 0 ∧ s'.nreal = s.nreal + k := by
+  induction k with
+  | zero => intro s h1 h2; simp [h1, h2]
+  | succ k ih =>
+    intro s h1 h2
+    simp only [List.replicate_succ, List.foldl_cons]
+    have hstep : alignStep s true =
+        { idx := s.idx ++ [s.idx.length], next := s.next + 1, nreal := s.nreal + 1,
+          moves := s.moves } := by
+      simp [alignStep, h1]
+    rw [hstep]
+    obtain ⟨a, b, c⟩ := ih (AlignSt.mk (s.idx ++ [s.idx.length]) (s.next + 1) (s.nreal + 1)
+      s.moves) (by simp [h1]) h2
+    exact ⟨a, b, by rw [c]; simp only []; omega⟩
+
+theorem alignFold_falses (l : List Bool) (hl : ∀ b ∈ l, b = false) : ∀ (s : AlignSt),
+    (l.foldl alignStep s).moves = s.moves ∧ (l.foldl alignStep s).nreal = s.nreal := by
+  induction l with
+  | nil => intro s; exact ⟨rfl, rfl⟩
+  | cons b bs ih =>
+    intro s
+    have hb : b = false := hl b (by simp)
+    subst hb
+    simp only [List.foldl_cons]
+    obtain ⟨h1, h2⟩ := ih (fun b hb => hl b (by simp [hb])) (alignStep s false)
+    rw [h1, h2]
+    simp [alignStep]
+
+/-- on real-particles-first tags `align_particles` moves nothing -/
+theorem alignIndex_aligned (k : Nat) (rest : List Bool) (hrest : ∀ b ∈ rest, b = false) :
+    (alignIndex (List.replicate k true ++ rest)).moves = 0 ∧
+    (alignIndex (List.replicate k true ++ rest)).nreal = k := by
+  unfold alignIndex
+  rw [List.foldl_append]
+  obtain ⟨_, h2, h3⟩ := alignFold_trues k { idx := [], next := 0, nreal := 0, moves := 0 } rfl rfl
+  obtain ⟨h4, h5⟩ := alignFold_falses rest hrest
+    ((List.replicate k true).foldl alignStep { idx := [], next := 0, nreal := 0, moves := 0 })
+  rw [h4, h5, h2, h3]
+  simp
+
 end PysphVerif.DumpLoad
